@@ -201,6 +201,15 @@ theorem setBox_internal (m : Mgr) (k : Nat) (b : Box) : (m.setBox k b).internal 
   · rfl
   · split <;> rfl
 
+theorem setBox_parked (m : Mgr) (k : Nat) (b : Box) : (m.setBox k b).parked = m.parked := by
+  unfold Mgr.setBox; split
+  · rfl
+  · split <;> rfl
+theorem setBox_seq (m : Mgr) (k : Nat) (b : Box) : (m.setBox k b).seq = m.seq := by
+  unfold Mgr.setBox; split
+  · rfl
+  · split <;> rfl
+
 theorem find_map_id (chans : List Chan) (f : Chan → Chan) (hf : ∀ ch, (f ch).id = ch.id) (c : Nat) :
     (chans.map f).find? (·.id == c) = (chans.find? (·.id == c)).map f := by
   induction chans with
